@@ -501,7 +501,7 @@ def grid(model):
             EnumVal("EqualsFloat", [2.5]), EnumVal("GreaterThan", [SInt(3)]), EnumVal("GreaterThanOrEqual", [SInt(3)]), EnumVal("LessThan", [SInt(3)]), EnumVal("LessThanOrEqual", [SInt(3)]),
             EnumVal("GreaterThanFloat", [2.5]), EnumVal("GreaterThanOrEqualFloat", [2.5]), EnumVal("LessThanFloat", [2.5]), EnumVal("LessThanOrEqualFloat", [0.5]),
             EnumVal("ExactDatetime", [dt]), EnumVal("AfterDatetime", [dt]), EnumVal("AtOrAfterDatetime", [dt]), EnumVal("BeforeDatetime", [dt]), EnumVal("AtOrBeforeDatetime", [dt]),
-            EnumVal("Not", [EnumVal("Equals", ["word"])]), EnumVal("Not", [EnumVal("EqualsInt", [SInt(3)])]), EnumVal("Not", [EnumVal("Null")]),
+            EnumVal("Not", [EnumVal("Equals", ["word"])]), EnumVal("Not", [EnumVal("EqualsInt", [SInt(3)])]), EnumVal("Not", [EnumVal("Null")]), EnumVal("Not", [EnumVal("True")]), EnumVal("Not", [EnumVal("False")]), EnumVal("Not", [EnumVal("Any")]),
             # strings that spell something else: quotes must keep them strings
             EnumVal("Equals", ["true"]), EnumVal("Equals", ["null"]), EnumVal("Equals", ["any"]), EnumVal("Equals", ["3"]), EnumVal("Equals", ["2.5"]), EnumVal("Equals", ["T10"]), EnumVal("Equals", [""]),
             EnumVal("Not", [EnumVal("Equals", ["false"])]),
